@@ -149,6 +149,7 @@ struct Tls {
     step: u64,
     wake_log: Vec<(u64, usize, usize)>, // (step, woken actor, by actor)
     site_log: Vec<(u64, usize, u16)>,   // (step, actor, site index)
+    pending_counts: Vec<u32>,           // per actor: polls that returned Pending
     last_panic: Option<String>,
     blocking_active: bool,
     spawned_jobs: Vec<deadpool_runtime::verif::Job>,
@@ -172,6 +173,7 @@ thread_local! {
         step: 0,
         wake_log: Vec::new(),
         site_log: Vec::new(),
+        pending_counts: Vec::new(),
         last_panic: None,
         blocking_active: false,
         spawned_jobs: Vec::new(),
@@ -389,6 +391,11 @@ pub fn site_log_since(idx: usize) -> Vec<(u64, usize, u16)> {
     tls(|t| t.site_log[idx.min(t.site_log.len())..].to_vec())
 }
 
+/// Number of polls of this actor that returned Pending so far.
+pub fn pending_count(actor: usize) -> u32 {
+    tls(|t| t.pending_counts.get(actor).copied().unwrap_or(0))
+}
+
 pub fn site_log_len() -> usize {
     tls(|t| t.site_log.len())
 }
@@ -433,6 +440,10 @@ pub fn drive<F: Future>(fut: F, stats: &mut DriveStats) -> PollEnd<F::Output> {
             Ok(Poll::Ready(v)) => return PollEnd::Ready(v),
             Ok(Poll::Pending) => {
                 stats.pendings += 1;
+                tls(|t| {
+                    let c = t.cur;
+                    t.pending_counts[c] += 1;
+                });
                 match suspend(Yield::Pending) {
                     Resume::Go => continue,
                     Resume::Cancel => {
@@ -696,6 +707,7 @@ pub fn begin_run(knobs: &Knobs, n_actors_hint: usize, trace: bool, stack_size: u
         t.step = 0;
         t.wake_log.clear();
         t.site_log.clear();
+        t.pending_counts.clear();
         t.last_panic = None;
         t.blocking_active = false;
         t.spawned_jobs.clear();
@@ -744,6 +756,7 @@ impl Sim {
         });
         let stack = tls(|t| {
             t.yielders.push(std::ptr::null());
+            t.pending_counts.push(0);
             t.wakers.push(waker.clone());
             t.last_site.push(None);
             let sz = t.stack_size;
